@@ -33,6 +33,7 @@ import (
 type gateWaiter struct {
 	kind string // "process" | "finh"
 	name string
+	key  string // name|hash for validators
 	ch   chan struct{}
 }
 
@@ -195,6 +196,12 @@ func (r *stageRig) onHook(label string, kv ...any) {
 		return
 	}
 	root := lastString(kv)
+	vkey := first
+	if len(kv) >= 3 {
+		if h, ok := kv[1].(string); ok {
+			vkey = first + "|" + h
+		}
+	}
 	r.mu.Lock()
 	if root != r.root {
 		r.mu.Unlock()
@@ -209,7 +216,7 @@ func (r *stageRig) onHook(label string, kv ...any) {
 	case "stage.spawn.validate":
 		r.pending++
 		r.pendV[first]++
-		r.vOrder = append(r.vOrder, first)
+		r.vOrder = append(r.vOrder, vkey)
 		r.tickets = append(r.tickets, &ticket{kind: "validate", name: first})
 	case "stage.spawn.finalize":
 		r.pending++
@@ -276,15 +283,17 @@ func (r *stageRig) onHook(label string, kv ...any) {
 		r.pending--
 		r.pendV[first]--
 		for i, n := range r.vOrder {
-			if n == first {
+			if n == vkey {
 				r.vOrder = append(r.vOrder[:i], r.vOrder[i+1:]...)
 				break
 			}
 		}
 		r.doneEvts = append(r.doneEvts, "validate:"+first)
+		r.doneEvts = append(r.doneEvts, "validatek:"+vkey)
 		r.cond.Broadcast()
 	case "stage.process.end":
 		r.doneEvts = append(r.doneEvts, "process:"+first)
+		r.doneEvts = append(r.doneEvts, "processk:"+vkey)
 		r.cond.Broadcast()
 	case "stage.done.finalize":
 		r.pending--
@@ -299,7 +308,7 @@ func (r *stageRig) onHook(label string, kv ...any) {
 		if label == "stage.finh.begin" {
 			kind = "finh"
 		}
-		w := &gateWaiter{kind: kind, name: first, ch: make(chan struct{})}
+		w := &gateWaiter{kind: kind, name: first, key: vkey, ch: make(chan struct{})}
 		r.waiters = append(r.waiters, w)
 		r.cond.Broadcast()
 		r.mu.Unlock()
@@ -371,20 +380,41 @@ func (r *stageRig) waitFor(d time.Duration, cond func() bool) bool {
 
 func (r *stageRig) releaseGate(kind, name string) (string, bool) {
 	var w *gateWaiter
-	ok := r.waitFor(5*time.Second, func() bool {
-		for i, x := range r.waiters {
-			if x.kind == kind && (name == "" || x.name == name) {
-				w = x
-				r.waiters = append(r.waiters[:i], r.waiters[i+1:]...)
-				return true
+	ok := r.waitFor(10*time.Second, func() bool {
+		want := ""
+		if kind == "process" {
+			// the oldest queued validation of that name (the validators take the
+			// channel in order but reach the gate in any order)
+			for _, k := range r.vOrder {
+				if name == "" || strings.HasPrefix(k, name+"|") || k == name {
+					want = k
+					break
+				}
 			}
+			if want == "" {
+				return false
+			}
+		}
+		for i, x := range r.waiters {
+			if x.kind != kind {
+				continue
+			}
+			if kind == "process" && x.key != want {
+				continue
+			}
+			if kind == "finh" && name != "" && x.name != name {
+				continue
+			}
+			w = x
+			r.waiters = append(r.waiters[:i], r.waiters[i+1:]...)
+			return true
 		}
 		return false
 	})
 	if !ok {
 		return "", false
 	}
-	key := "validate:" + w.name
+	key := "validatek:" + w.key
 	if kind == "finh" {
 		key = "finalize:" + w.name
 	}
@@ -425,6 +455,9 @@ func (r *stageRig) settle() bool {
 			return true
 		}
 		if next != "" {
+			if i := strings.Index(next, "|"); i >= 0 {
+				next = next[:i]
+			}
 			if _, ok := r.releaseGate("process", next); !ok {
 				return false
 			}
@@ -507,13 +540,19 @@ type stageExec struct {
 	delivered map[string][]byte          // target -> body seen in final dir (oracle)
 	versions  map[string]map[string]bool // name -> set of model hash tokens announced for it
 	corrupted map[string]bool
+	prevOf    map[string]string // name|hashtoken -> predecessor announced last for that version
+	gaveUp    bool              // cleanwaiting ran: the order may have been given up for cycles
+	crashes   int               // crash / cut operations in this case
+	confirmed map[string]bool   // names ever answered passed / waiting
+	consumed  map[string]bool   // targets the harness consumed from the final directory
 }
 
 func newStageExec() *stageExec {
 	rig, err := newStageRig()
 	return &stageExec{rig: rig, err: err, md5Of: map[string]string{}, tokOf: map[string]string{},
 		names: map[string]bool{}, targets: map[string]bool{}, handles: map[string]*pendingRecv{},
-		kinds: map[string]bool{}, delivered: map[string][]byte{}, versions: map[string]map[string]bool{}, corrupted: map[string]bool{}}
+		kinds: map[string]bool{}, delivered: map[string][]byte{}, versions: map[string]map[string]bool{}, corrupted: map[string]bool{},
+		prevOf: map[string]string{}, confirmed: map[string]bool{}, consumed: map[string]bool{}}
 }
 
 func parseBodyTok(s string) ([]byte, bool) {
@@ -628,6 +667,7 @@ func (e *stageExec) partial(n, renamed, prev, size, hash, beg, end string) (*sts
 		e.versions[name] = map[string]bool{}
 	}
 	e.versions[name][tok] = true
+	e.prevOf[name+"|"+tok] = unesc(prev)
 	return &sts.Partial{Name: name, Renamed: unesc(renamed), Prev: unesc(prev), Size: sz,
 		Hash: e.realHash(tok), Source: "verif", Time: marshal.NanoTime{Time: time.Unix(e.rig.base, 0)},
 		Parts: []*sts.ByteRange{{Beg: b, End: en}}}, true
@@ -647,6 +687,7 @@ func (e *stageExec) Do(op []string) string {
 		if err != nil {
 			return "bad-op"
 		}
+		e.crashes++
 		r.mu.Lock()
 		r.cutK, r.durCount, r.snapDir = k, 0, ""
 		if k == 0 {
@@ -818,6 +859,7 @@ func (e *stageExec) do1(op []string) string {
 	case len(op) == 2 && op[0] == "consume":
 		t := unesc(op[1])
 		e.scanFinal()
+		e.consumed[t] = true
 		os.Remove(filepath.Join(r.final, t))
 		return "ok"
 	case len(op) == 5 && op[0] == "corrupt":
@@ -925,12 +967,16 @@ func (e *stageExec) do1(op []string) string {
 		}
 		return "ok"
 	case len(op) >= 2 && op[0] == "cleanstrays":
+		before := listTree(filepath.Dir(r.root))
 		r.st.VerifCleanStrays()
+		e.oracleClean(before, listTree(filepath.Dir(r.root)))
 		return "ok"
 	case len(op) == 1 && op[0] == "cleanwaiting":
+		e.gaveUp = true
 		r.st.VerifCleanWaiting()
 		return "ok"
 	case len(op) == 1 && op[0] == "crash":
+		e.crashes++
 		r.abandon()
 		r.gen++
 		dst := filepath.Join(r.sandbox, fmt.Sprintf("g%d", r.gen))
@@ -961,7 +1007,11 @@ func (e *stageExec) do1(op []string) string {
 		}
 		name := unesc(op[1])
 		e.names[name] = true
-		return strconv.Itoa(r.st.GetFileStatus(name, sent))
+		code := r.st.GetFileStatus(name, sent)
+		if code == sts.ConfirmPassed || code == sts.ConfirmWaiting {
+			e.confirmed[name] = true
+		}
+		return strconv.Itoa(code)
 	case len(op) == 1 && op[0] == "scan":
 		b, err := r.st.Scan("1")
 		if err != nil {
@@ -977,6 +1027,9 @@ func (e *stageExec) do1(op []string) string {
 		return "partials{" + strings.Join(items, ";") + "}"
 	case len(op) == 1 && op[0] == "observe":
 		e.scanFinal()
+		e.oracleOrder()
+		e.oracleOnce()
+		e.oracleNotLost()
 		return e.observe()
 	case len(op) == 1 && op[0] == "mem":
 		return "skip"
@@ -1161,6 +1214,99 @@ func (e *stageExec) oracleReceived(name, tok string, beg, end int64) {
 		return
 	}
 	e.fails = append(e.fails, fmt.Sprintf("received-unsound: part %d:%d of %s (%s) reported as received but nothing is staged or logged", beg, end, name, tok))
+}
+
+// oracleOrder: C04 — a record whose version announced a real predecessor is preceded in the
+// receive log by a record of that predecessor (unless the cleaner gave the order up).
+func (e *stageExec) oracleOrder() {
+	if e.gaveUp {
+		return
+	}
+	seen := map[string]bool{}
+	for _, l := range e.readLog() {
+		tok := e.tokOfHash(l.hash)
+		if p, ok := e.prevOf[l.name+"|"+tok]; ok && p != "" && p != l.name && !seen[p] {
+			e.fails = append(e.fails, fmt.Sprintf("order-violated: %s (%s) was logged as received before its announced predecessor %s", l.name, tok, p))
+		}
+		seen[l.name] = true
+	}
+}
+
+// oracleOnce: C05 — a version is logged once; only a crash between logging and moving may
+// repeat the record.
+func (e *stageExec) oracleOnce() {
+	cnt := map[string]int{}
+	for _, l := range e.readLog() {
+		cnt[l.name+"|"+l.hash]++
+	}
+	for k, c := range cnt {
+		if c > 1+e.crashes {
+			e.fails = append(e.fails, fmt.Sprintf("logged-twice: %d receive-log records for %s with %d crash(es) in the history", c, k[:strings.Index(k, "|")], e.crashes))
+		}
+	}
+}
+
+// oracleNotLost: C06 — a file that was reported as passed / waiting is delivered (or was
+// consumed from the final directory) or is still held validated in staging.
+func (e *stageExec) oracleNotLost() {
+	r := e.rig
+	logged := map[string]bool{}
+	for _, l := range e.readLog() {
+		logged[l.name] = true
+	}
+	for name := range e.confirmed {
+		if logged[name] {
+			continue
+		}
+		if _, err := os.Stat(filepath.Join(r.root, name) + ".wait"); err == nil {
+			continue
+		}
+		e.fails = append(e.fails, fmt.Sprintf("validated-lost: %s was reported as passed/waiting but is neither logged nor held as .wait", name))
+	}
+}
+
+// oracleClean: C20 — cleaning removes only partials and companions, and a partial whose
+// version is not in the receive log only when a complete copy of that name is staged.
+func (e *stageExec) oracleClean(before, after map[string][]byte) {
+	for _, p := range sortedNames(before) {
+		if _, ok := after[p]; ok {
+			continue
+		}
+		switch {
+		case strings.HasPrefix(p, "stage/") && strings.HasSuffix(p, ".part"):
+			name := strings.TrimSuffix(strings.TrimPrefix(p, "stage/"), ".part")
+			hash := ""
+			if cb, ok := before["stage/"+name+".cmp"]; ok {
+				var c sts.Partial
+				if json.Unmarshal(cb, &c) == nil {
+					hash = c.Hash
+				}
+			}
+			okLog := false
+			for _, l := range e.readLog() {
+				if l.name == name && (hash == "" || l.hash == hash) {
+					okLog = true
+				}
+			}
+			_, full := after["stage/"+name+".full"]
+			_, wait := after["stage/"+name+".wait"]
+			if !okLog && !full && !wait {
+				e.fails = append(e.fails, fmt.Sprintf("clean-removed-undelivered: partial of %s (companion hash %s) removed although that version is not logged and no complete copy is staged", name, e.tokOfHash(hash)))
+			}
+		case strings.HasPrefix(p, "stage/") && strings.HasSuffix(p, ".cmp"):
+			name := strings.TrimSuffix(strings.TrimPrefix(p, "stage/"), ".cmp")
+			if _, ok := after["stage/"+name+".part"]; ok {
+				e.fails = append(e.fails, fmt.Sprintf("clean-removed-live-companion: companion of %s removed while its partial stays", name))
+			}
+		default:
+			e.fails = append(e.fails, "clean-removed-other: cleaning removed "+p)
+		}
+	}
+	for _, p := range sortedNames(after) {
+		if b, ok := before[p]; ok && string(b) != string(after[p]) {
+			e.fails = append(e.fails, "clean-changed: cleaning changed "+p)
+		}
+	}
 }
 
 func (e *stageExec) Oracle() []string { f := e.fails; e.fails = nil; return f }
